@@ -14,9 +14,9 @@ WrSlots(s, set, n) ==
   [j \in {IdxOf(s, k) : k \in ks} |-> set[CHOOSE k \in ks : IdxOf(s, k) = j]]
 KeepSlots(s, keep) == {IdxOf(s, k) : k \in {x \in keep : Has(s, x)}}
 \* hint codes of the harness: <<>> = exact; hi = -1: None, -2: usize::MAX, -3: usize::MAX/2 (both
-\* stand for "far above anything yielded": 2^20 gives the same strategy decision), -4: 2^16
+\* saturate the heuristic's arithmetic: code -9, see ExtendRebuilds), -4: 2^16
 DecodeHint(h, n) == IF h = <<>> THEN <<n, n>>
-                    ELSE <<h[1], CASE h[2] = -2 -> 1048576 [] h[2] = -3 -> 1048576 [] h[2] = -4 -> 65536 [] OTHER -> h[2]>>
+                    ELSE <<h[1], CASE h[2] = -2 -> -9 [] h[2] = -3 -> -9 [] h[2] = -4 -> 65536 [] OTHER -> h[2]>>
 
 Apply(kind, s, op, f) ==
   LET pq == kind = "pq" IN
